@@ -1,0 +1,60 @@
+//go:build verif
+
+// Contracts for package proxy, read by the /verif VC generator (vcgo). This file is only compiled
+// with -tags verif. It contains (a) //@ contract blocks, keyed by function, (b) pure specification
+// functions that transcribe the documented behaviour independently of the implementation.
+// No existing function is changed.
+
+package proxy
+
+// ---------------------------------------------------------------------------------------------
+// C05: the documented default retry policy (README / doc comments of RetryPolicy), as a table.
+// ---------------------------------------------------------------------------------------------
+
+// verifSpecReadTimeout: "one retry on the same host for a read timeout with enough responses but no data".
+func verifSpecReadTimeout(received, blockFor int32, dataPresent bool, retryCount int) RetryDecision {
+	enoughResponses := received >= blockFor
+	firstAttempt := retryCount == 0
+	if firstAttempt && enoughResponses && !dataPresent {
+		return RetrySame
+	}
+	return ReturnError
+}
+
+// verifSpecWriteTimeout: "one retry on the same host for a batch-log write timeout".
+func verifSpecWriteTimeout(isBatchLog bool, retryCount int) RetryDecision {
+	if retryCount == 0 && isBatchLog {
+		return RetrySame
+	}
+	return ReturnError
+}
+
+// verifSpecUnavailable: "next host for unavailable (once)".
+func verifSpecUnavailable(retryCount int) RetryDecision {
+	if retryCount == 0 {
+		return RetryNext
+	}
+	return ReturnError
+}
+
+// verifSpecErrorResponse: "server/overloaded/truncate errors: next host; read/write failure: no retry".
+func verifSpecErrorResponse(isReadFailure, isWriteFailure bool) RetryDecision {
+	if isReadFailure || isWriteFailure {
+		return ReturnError
+	}
+	return RetryNext
+}
+
+//@ func proxy.defaultRetryPolicy.OnReadTimeout [C05]
+//@   requires msg != nil
+//@   ensures  result == verifSpecReadTimeout(msg.Received, msg.BlockFor, msg.DataPresent, retryCount)
+//@   modifies nothing
+
+//@ func proxy.defaultRetryPolicy.OnWriteTimeout [C05]
+//@   requires msg != nil
+//@   ensures  result == verifSpecWriteTimeout(msg.WriteType == primitive.WriteTypeBatchLog, retryCount)
+//@   modifies nothing
+
+//@ func proxy.defaultRetryPolicy.OnUnavailable [C05]
+//@   ensures  result == verifSpecUnavailable(retryCount)
+//@   modifies nothing
